@@ -12,9 +12,9 @@ import McpModel.Wire.LemmasSse
 
 Model: `Wire.encodeMsg`/`decodeMsg` (`internal/jsonrpc2/messages.go`, `wire.go`), `decodeID` (the
 REPAIRED id path, fix F1), `toWireError`, `frame`/`unframe`, `readBatch`, `opRead`/`opWrite`
-(`ioConn`, REPAIRED batch tracking, fix F2), `writeEvent`/`scanEvents` (`mcp/event.go`),
+(`ioConn`, REPAIRED batch tracking, fix F2), `writeEvent`/`scanEvents` (`mcp/event.go`; `renderStream`: event streams as any conforming peer frames them),
 `encodeContent`/`decodeContent` (`mcp/content.go`, REPAIRED nesting, fix F8), `sdkResultList`
-(REPAIRED normalisation, fix F15), `sdkCallTool` (results of raw tool handlers; REPAIRED nil result, fix
+(REPAIRED normalisation, fix F15), `listPage` (`paginateList` + the list handlers' `setFunc`, every cursor), `sdkCallTool` (results of raw tool handlers; REPAIRED nil result, fix
 wire-F30), `unquote` (the spelling of string literals on the wire).  Struct tags, codes and framing constants come from
 `Generated.Wire` (regenerated from /repo on every run): a changed tag re-opens these proofs.
 
